@@ -659,144 +659,6 @@ theorem getEmissionAssignment_bound (np ne : Nat) (draws ea : List Nat) (hne : 1
       omega
     · cases h
 
-/-! ### `add`: appending an operation at the end of its wires -/
-
-theorem mem_sortRegs (l : List Reg) (r : Reg) : r ∈ sortRegs l ↔ r ∈ l := by
-  induction l with
-  | nil => simp [sortRegs]
-  | cons a l ih =>
-    have h := List.takeWhile_append_dropWhile (p := fun x : Reg => decide (x.sortKey < a.sortKey)) (l := sortRegs l)
-    have hm : r ∈ sortRegs l ↔
-        r ∈ (sortRegs l).takeWhile (fun x => decide (x.sortKey < a.sortKey)) ∨
-        r ∈ (sortRegs l).dropWhile (fun x => decide (x.sortKey < a.sortKey)) := by
-      rw [← List.mem_append, h]
-    show r ∈ (sortRegs l).takeWhile _ ++ a :: (sortRegs l).dropWhile _ ↔ _
-    rw [List.mem_append, List.mem_cons, List.mem_cons, ← ih, hm]
-    constructor
-    · rintro (h | h | h)
-      · exact Or.inr (Or.inl h)
-      · exact Or.inl h
-      · exact Or.inr (Or.inr h)
-    · rintro (h | h | h)
-      · exact Or.inr (Or.inl h)
-      · exact Or.inl h
-      · exact Or.inr (Or.inr h)
-
-theorem addRegIfAbsent_of_valid (c : Circuit) (r : Reg) (h : c.validReg r = true) : c.addRegIfAbsent r = .ok c := by
-  unfold Circuit.addRegIfAbsent
-  simp only [Circuit.validReg, decide_eq_true_eq] at h
-  rw [if_pos h]
-
-theorem foldlM_ok_const {α : Type} (f : Circuit → α → Except Err Circuit) (c : Circuit) (l : List α)
-    (h : ∀ x, x ∈ l → f c x = .ok c) : l.foldlM f c = .ok c := by
-  induction l with
-  | nil => rfl
-  | cons a l ih =>
-    rw [List.foldlM_cons, h a List.mem_cons_self]
-    exact ih (fun x hx => h x (List.mem_cons_of_mem _ hx))
-
-theorem add_of_valid (c : Circuit) (op : Op) (hq : ∀ r, r ∈ op.q → c.validReg r = true)
-    (hc : ∀ i, i ∈ op.cr → c.validReg ⟨.c, i⟩ = true) : c.add op = .ok (c.addCore op) := by
-  unfold Circuit.add
-  rw [foldlM_ok_const _ c op.cr (fun i hi => addRegIfAbsent_of_valid c _ (hc i hi))]
-  show (do let c2 ← (sortRegs op.q).foldlM (fun (c' : Circuit) r => c'.addRegIfAbsent r) c; pure (c2.addCore op)) = _
-  rw [foldlM_ok_const _ c (sortRegs op.q) (fun r hr => addRegIfAbsent_of_valid c _ (hq r ((mem_sortRegs _ _).mp hr)))]
-  rfl
-
-/-- the edges `_add` splices the node into -/
-def endEdges (c : Circuit) (op : Op) : List Edge := op.addRegs.map fun r => ⟨r, (c.wire r).length⟩
-
-theorem addCore_eq (c : Circuit) (op : Op) : c.addCore op = c.insertAt op (endEdges c op) := rfl
-
-theorem endEdges_regs (c : Circuit) (op : Op) : (endEdges c op).map (·.r) = op.addRegs := by
-  simp [endEdges, Function.comp_def]
-
-theorem mem_endEdges {c : Circuit} {op : Op} {e : Edge} (h : e ∈ endEdges c op) :
-    e.r ∈ op.addRegs ∧ e.pos = (c.wire e.r).length := by
-  simp only [endEdges, List.mem_map] at h
-  obtain ⟨r, hr, rfl⟩ := h
-  exact ⟨hr, rfl⟩
-
-theorem dst_end (c : Circuit) (e : Edge) (h : e.pos = (c.wire e.r).length) : c.dst e = V.out e.r := by
-  simp [Circuit.dst, h]
-
-theorem ins_end (w : List Nat) (k : Nat) : ins w w.length k = w ++ [k] := by simp [ins]
-
-theorem adj_snoc_left {α : Type} {A : List α} {z a b : α} (h : Adj (A ++ [z]) a b) : a ∈ A := by
-  induction A with
-  | nil => simp [Adj] at h
-  | cons x A ih =>
-    cases A with
-    | nil =>
-      simp only [Adj, List.cons_append, List.nil_append, pairs_cons_cons, pairs_singleton, List.mem_singleton,
-        Prod.mk.injEq] at h
-      simp [h.1]
-    | cons y A' =>
-      simp only [Adj, List.cons_append, pairs_cons_cons, List.mem_cons, Prod.mk.injEq] at h
-      rcases h with ⟨rfl, _⟩ | h
-      · exact List.mem_cons_self
-      · exact List.mem_cons_of_mem _ (ih h)
-
-theorem out_no_succ (c : Circuit) (r : Reg) (b : V) : ¬ c.E (V.out r) b := by
-  intro h
-  obtain ⟨r', _, hadj⟩ := (E_iff c _ _).mp h
-  have : c.aug r' = (V.inp r' :: (c.wire r').map V.op) ++ [V.out r'] := by simp [Circuit.aug]
-  rw [this] at hadj
-  have hm := adj_snoc_left hadj
-  simp at hm
-
-theorem reach_from_out (c : Circuit) (r : Reg) (x : V) (h : ReflTransGen c.E (V.out r) x) : x = V.out r := by
-  rcases ReflTransGen.cases_head h with h | ⟨y, hy, _⟩
-  · exact h.symm
-  · exact absurd hy (out_no_succ c r y)
-
-theorem acyclic_addCore (c : Circuit) (op : Op) (hwf : c.WF) (hac : c.Acyclic) (hnd : op.addRegs.Nodup) :
-    (c.addCore op).Acyclic := by
-  rw [addCore_eq]
-  refine acyclic_insertAt c op _ hwf hac (by rw [endEdges_regs]; exact hnd) ?_
-  intro e1 _ e2 he2 hreach
-  rw [dst_end c e2 (mem_endEdges he2).2] at hreach
-  have := reach_from_out c _ _ hreach
-  rcases src_cases c e1 with h | ⟨n, _, h⟩ <;> rw [h] at this <;> cases this
-
-theorem WF_addCore (c : Circuit) (op : Op) (hwf : c.WF) (hnd : op.addRegs.Nodup)
-    (hqv : ∀ r, r ∈ op.q → c.validReg r = true ∧ r.ty ≠ .c) (hcv : ∀ i, i ∈ op.cr → c.validReg ⟨.c, i⟩ = true) :
-    (c.addCore op).WF := by
-  rw [addCore_eq]
-  refine WF_insertAt c op _ hwf (by rw [endEdges_regs]; exact hnd) ?_ ?_ ?_ hqv
-  · intro e he
-    have := (mem_endEdges he).1
-    simp only [Op.addRegs, List.mem_append, List.mem_map] at this
-    rcases this with h | ⟨i, hi, h⟩
-    · exact (hqv _ h).1
-    · rw [← h]; exact hcv i hi
-  · intro r hr
-    rw [endEdges_regs]
-    simp only [Op.addRegs, List.mem_append, List.mem_map]
-    constructor
-    · rintro (h | ⟨i, _, h⟩)
-      · exact h
-      · exact absurd (by rw [← h]) hr
-    · exact Or.inl
-  · intro i hi
-    rw [endEdges_regs] at hi
-    simp only [Op.addRegs, List.mem_append, List.mem_map] at hi
-    rcases hi with h | ⟨i', hi', h⟩
-    · exact absurd rfl (hqv _ h).2
-    · cases h; exact hi'
-
-theorem addCore_wire (c : Circuit) (op : Op) (hnd : op.addRegs.Nodup) (r : Reg) :
-    (c.addCore op).wire r = if r ∈ op.addRegs then c.wire r ++ [c.nid + 1] else c.wire r := by
-  rw [addCore_eq]
-  split
-  · rename_i h
-    have he : (⟨r, (c.wire r).length⟩ : Edge) ∈ endEdges c op := List.mem_map.mpr ⟨r, h, rfl⟩
-    have := insertAt_wire_of_mem c op (endEdges c op) (by rw [endEdges_regs]; exact hnd) _ he
-    simp only at this
-    rw [this, ins_end]
-  · rename_i h
-    exact insertAt_wire_of_not_mem c op _ r (by rw [endEdges_regs]; exact h)
-
 /-! ### the emission constraints while photons are still being emitted -/
 
 structure Circuit.EmitPre (c : Circuit) : Prop where
@@ -860,17 +722,6 @@ structure InitInv (c : Circuit) (ne np i : Nat) : Prop where
   hnc : c.nc = 1
   filled : ∀ j, j < i → c.wire ⟨.p, j⟩ ≠ []
   empty : ∀ j, i ≤ j → c.wire ⟨.p, j⟩ = []
-
-theorem addCore_ne (c : Circuit) (op : Op) : (c.addCore op).ne = c.ne := insertAt_ne _ _ _
-theorem addCore_np (c : Circuit) (op : Op) : (c.addCore op).np = c.np := insertAt_np _ _ _
-theorem addCore_nc (c : Circuit) (op : Op) : (c.addCore op).nc = c.nc := insertAt_nc _ _ _
-
-theorem validReg_e (c : Circuit) (a : Nat) (h : a < c.ne) : c.validReg ⟨.e, a⟩ = true := by
-  simp [Circuit.validReg, Circuit.count, h]
-theorem validReg_p (c : Circuit) (a : Nat) (h : a < c.np) : c.validReg ⟨.p, a⟩ = true := by
-  simp [Circuit.validReg, Circuit.count, h]
-theorem validReg_c (c : Circuit) (a : Nat) (h : a < c.nc) : c.validReg ⟨.c, a⟩ = true := by
-  simp [Circuit.validReg, Circuit.count, h]
 
 /-- one iteration of the photon loop: emission CNOT, then the `[Identity, Hadamard]` wrapper -/
 theorem init_photon_step (c : Circuit) (ne np i a : Nat) (h : InitInv c ne np i) (hi : i < np) (ha : a < ne) :
